@@ -137,7 +137,9 @@ def chain_traces(ctx, quick):
         power = [7, 1, 1, 1] if kind == 'lower' else [2, 2, 2, 1]
         at = 1 + (ctx.seed + k) % 2
         out.append({'id': 'chain-%s-%d' % (kind, ctx.seed), 'steps': [],
-                    'cfg': {'mode': 'chain', 'Power': power, 'heights': at + 2, 'rc': at + 1 if (ctx.seed + k) % 3 else at,
+                    'cfg': {'mode': 'chain', 'Power': power, 'heights': at + 2,
+                            # (7,1,1,1): the heavy validator decides alone while it is heavy - the round change comes after
+                            'rc': at + 1 if (kind == 'lower' or (ctx.seed + k) % 3) else at,
                             'hist': kind, 'histAt': at}})
     if not quick:
         out += [{'id': 'chain-1234-%d' % ctx.seed, 'cfg': {'mode': 'chain', 'Power': [1, 2, 3, 4], 'heights': 3, 'rc': 1 + (ctx.seed + 1) % 3}, 'steps': []},
